@@ -115,8 +115,9 @@ pub fn generate(world: &World, seed: u64, run: u64) -> Trace {
     let n_records = 1 + rng.below(MAX_RECORDS as u64) as usize;
 
     let rl = match rng.below(10) {
-        0..=5 => RlMode::Exact,
-        6 | 7 => RlMode::None,
+        0..=4 => RlMode::Exact,
+        5 | 6 => RlMode::None,
+        7 => RlMode::Over,
         _ => RlMode::Err,
     };
     let native_read_byte = rng.chance(1, 2);
